@@ -30,6 +30,63 @@ var specials = []gen.O{
 	{T: "str", S: gen.Hex("(text)")},
 }
 
+// framingKeys are names with a meaning for stream framing, file structure
+// and object typing.  In a plain (non-stream) dictionary they are ordinary
+// keys and must be copied like any other.
+var framingKeys = []string{"Length", "Length", "Length", "Filter", "DecodeParms", "DL", "F", "FFilter", "FDecodeParms",
+	"Type", "Subtype", "Parent", "Kids", "Count", "Root", "Size", "Prev", "Encrypt", "ID", "XRefStm", "N", "First",
+	"Extends", "W", "Index"}
+
+func isFramingKey(k string) bool {
+	for _, f := range framingKeys {
+		if f == k {
+			return true
+		}
+	}
+	return false
+}
+
+var framingValues = []gen.O{
+	{T: "int", I: 42},
+	{T: "int", I: 0},
+	{T: "name", S: gen.Hex("FlateDecode")},
+	{T: "name", S: gen.Hex("Font")},
+	{T: "arr", A: []gen.O{{T: "int", I: 1}, {T: "int", I: 2}}},
+	{T: "dict", D: []gen.KV{{K: gen.Hex("Length"), V: gen.O{T: "int", I: 7}}}},
+	{T: "str", S: gen.Hex("id")},
+}
+
+// addFramingKeys walks a tree and gives plain dictionaries at every nesting
+// position entries named like framing keys, with direct and indirect values.
+func addFramingKeys(t *rapid.T, o gen.O, drawRef func(string) gen.O) gen.O {
+	switch o.T {
+	case "arr":
+		a := make([]gen.O, len(o.A))
+		for i := range o.A {
+			a[i] = addFramingKeys(t, o.A[i], drawRef)
+		}
+		o.A = a
+	case "dict":
+		d := make([]gen.KV, len(o.D))
+		for i := range o.D {
+			d[i] = gen.KV{K: o.D[i].K, V: addFramingKeys(t, o.D[i].V, drawRef)}
+		}
+		k := rapid.SampledFrom([]int{0, 0, 1, 1, 2}).Draw(t, "nframing")
+		for j := 0; j < k; j++ {
+			key := rapid.SampledFrom(framingKeys).Draw(t, "framingkey")
+			var val gen.O
+			if rapid.IntRange(0, 2).Draw(t, "framingval") > 0 {
+				val = drawRef("framingref")
+			} else {
+				val = rapid.SampledFrom(framingValues).Draw(t, "framingdirect")
+			}
+			d = append(d, gen.KV{K: gen.Hex(key), V: val})
+		}
+		o.D = dedupKeys(d)
+	}
+	return o
+}
+
 var streamKeys = []string{"K", "My Key", "Params", "X#1", "Sub", "Ref"}
 
 func drawConfig(t *rapid.T, label string, allowEnc bool) Config {
@@ -234,6 +291,9 @@ func genCase(t *rapid.T) Case {
 			nd.Obj = drawRef("link")
 		case "obj":
 			base := fix(gen.Obj(objOpts).Draw(t, "obj"))
+			if rapid.IntRange(0, 4).Draw(t, "plaindict") == 0 {
+				base = gen.O{T: "dict"}
+			}
 			ex := drawExtras()
 			switch {
 			case base.T == "arr":
@@ -246,7 +306,7 @@ func genCase(t *rapid.T) Case {
 			case len(ex) > 0:
 				base = gen.O{T: "arr", A: append([]gen.O{base}, ex...)}
 			}
-			nd.Obj = base
+			nd.Obj = addFramingKeys(t, base, drawRef)
 		case "stream":
 			nk := rapid.IntRange(0, 3).Draw(t, "ndictkeys")
 			for j := 0; j < nk; j++ {
@@ -345,6 +405,7 @@ func genCase(t *rapid.T) Case {
 					base = gen.O{T: "arr", A: append([]gen.O{base}, ex...)}
 				}
 			}
+			base = addFramingKeys(t, base, drawRef)
 			call.Obj = &base
 		case "redirect":
 			var ok []gen.O
